@@ -21,6 +21,17 @@ package main
 //	                                  line is written only up to cut bytes, the rest precedes the next op on that file
 //	      | (1 name newname)          rename (same inode)
 //	      | (2 name (line ...) cut)   truncate to 0 and write the lines (same inode)
+//	      | (3 name)                  remove the file (unlink; a target >= 1000 is renamed to <path>.rotatedN instead, as kubelet
+//	                                  rotates): it leaves the watched set, its lines are no longer promised from then on
+//	      | (6 name)                  the same for a file that file.d itself was told to remove (remove_after): the harness
+//	                                  records whether it is gone and removes it otherwise
+//	      | (4 link target)           symlink <link> -> <target> (absolute), created or re-pointed
+//	      | (5 link target other)     the same, but the link's NAME is computed so that the job of (link, target) gets the
+//	                                  same source id as the job of symlink <other> (sourceIDByStat adds only the low 32 bits
+//	                                  of the symlink hash to the inode)
+//	names: 0..999 = <dir>/watch/f<n>.log; 1000..1999 = <dir>/targets/f<n>.log (outside the watched directory, reached
+//	       through symlinks only); 2000..2999 = <dir>/watch/<1-2 letters> (a base name shorter than 4 bytes)
+//	cfg items 8.. (optional, default 0): workers (0 = 2) watchChanges removeAfterMs maxEventSize cutOff k8sMeta
 //	line  = (#stream len kind delayMs)  kind 2 = len empty lines, kind 3 = one undecodable line of len bytes (both dropped by the
 //	                                  pipeline: In returns EventSeqIDError); else rendered as {"stream":..,"id":N,"d":delay,"m":"x"|"S","p":"pad"}\n of
 //	                                  exactly len bytes; ids number the lines of the case in order of appearance
@@ -31,6 +42,7 @@ package main
 //	which = 0: full property (every complete line delivered at least once over all runs)
 //	which = 1: the same, but a loss explained by the known multi-stream defect is tolerated (used only
 //	           until known_findings.json lists C03-multi-stream-unsaved)
+//	which = 2: the full property; a line may be delivered more than once within one run (stream live-rotate)
 
 import (
 	"bytes"
@@ -64,6 +76,7 @@ type fileOp struct {
 	op    int
 	name  int
 	name2 int
+	name3 int
 	lines []lineSpec
 	cut   int
 }
@@ -81,8 +94,11 @@ func decodeOp(v hx.Sx, nextID *int) fileOp {
 	it := hx.Items(v)
 	o := fileOp{op: int(hx.Int(it[0])), name: int(hx.Int(it[1]))}
 	switch o.op {
-	case 1:
+	case 1, 4:
 		o.name2 = int(hx.Int(it[2]))
+	case 5:
+		o.name2, o.name3 = int(hx.Int(it[2])), int(hx.Int(it[3]))
+	case 3, 6:
 	default:
 		for _, l := range hx.Items(it[2]) {
 			li := hx.Items(l)
@@ -169,22 +185,88 @@ type wline struct {
 	stream string
 }
 type wfile struct {
-	ident int
-	inode uint64
-	lines []wline // complete lines of the current content
-	size  int64
-	pend  []byte // rest of a cut line, written before the next op on this file
-	pendL *lineSpec
+	ident   int
+	inode   uint64
+	removed bool
+	lines   []wline // complete lines of the current content
+	size    int64
+	pend    []byte // rest of a cut line, written before the next op on this file
+	pendL   *lineSpec
 }
 type world struct {
-	dir    string
-	byName map[int]*wfile
-	files  []*wfile
-	bad    string
+	dir      string
+	byName   map[int]*wfile
+	files    []*wfile
+	bad      string
+	linkPath map[int]string // op 5: the computed path of a link
+	links    map[int]linkInfo
+	rotated  int
+}
+
+type linkInfo struct {
+	path  string
+	inode uint64 // of the target when the link was made
 }
 
 func (w *world) path(name int) string {
+	if p, ok := w.linkPath[name]; ok {
+		return p
+	}
+	switch {
+	case name >= 2000 && name < 3000: // base name of 1..2 bytes, no extension
+		n := name - 2000
+		b := string(rune('a' + n%26))
+		if n >= 26 {
+			b += string(rune('a' + (n/26)%26))
+		}
+		return filepath.Join(w.dir, "watch", b)
+	case name >= 1000 && name < 2000:
+		return filepath.Join(w.dir, "targets", fmt.Sprintf("f%d.log", name))
+	}
 	return filepath.Join(w.dir, "watch", fmt.Sprintf("f%d.log", name))
+}
+
+// ---- sourceIDByStat (provider.go:475-487) as far as the harness needs it: the symlink's contribution to the source id
+// is symHash & 0xffffffff, and modulo 2^32 every character step is h -> 4h - 1 + c*P. After 16 characters the start value
+// (inode * K) has been shifted out, so the contribution depends on the LAST 16 characters of the symlink path only.
+const symP = 8460724049
+
+func symContribution(symlink string, inode uint64) uint32 {
+	h := int64(inode) * 8922886018542929
+	for _, c := range symlink {
+		h <<= 2
+		h -= 1
+		h += int64(c) * symP
+	}
+	return uint32(uint64(h) & 0xffffffff)
+}
+
+// collidingBase returns a 16-letter base name such that inode2 + contribution(dir/base) == inode1 + contrib1 (mod 2^32 is
+// enough: the harness' inodes are far below 2^32, so no carry is lost). The base is found digit by digit in base 4.
+func collidingBase(inode1 uint64, contrib1 uint32, inode2 uint64) (string, bool) {
+	want64 := int64(inode1) + int64(contrib1) - int64(inode2) // contribution the new name must have
+	if want64 < 0 || want64 >= 1<<32 {
+		return "", false
+	}
+	want := uint32(want64)
+	// contribution of a 16-character suffix c0..c15: sum 4^(15-j) * (cj*P - 1)  (mod 2^32)
+	pm := uint32(symP & 0xffffffff)
+	zero, ca := uint32(0), uint32('a')
+	for j := 0; j < 16; j++ {
+		zero = zero*4 + (ca*pm - 1)
+	}
+	// inverse of P modulo 2^32 (P is odd)
+	inv := pm
+	for i := 0; i < 5; i++ {
+		inv *= 2 - pm*inv
+	}
+	d := (want - zero) * inv // sum 4^(15-j) * delta_j, delta_j in 0..3
+	b := make([]byte, 16)
+	for j := 15; j >= 0; j-- {
+		b[j] = 'a' + byte(d&3)
+		d >>= 2
+	}
+	return string(b), true
 }
 
 func appendBytes(path string, b []byte) error {
@@ -215,6 +297,68 @@ func (w *world) apply(o fileOp) []wline {
 		}
 		delete(w.byName, o.name)
 		w.byName[o.name2] = f
+		return nil
+	case 3, 6:
+		if f == nil {
+			w.bad = "remove: no such file"
+			return nil
+		}
+		var err error
+		if o.op == 6 { // file.d was configured to remove the file (remove_after): record whether it did, make sure it is gone
+			if _, serr := os.Lstat(w.path(o.name)); serr != nil {
+				note("remove_after: the file was removed by file.d")
+			} else {
+				note("remove_after: the file was still there, removed by the harness")
+				err = os.Remove(w.path(o.name))
+			}
+		} else if o.name >= 1000 && o.name < 2000 {
+			// a target behind a symlink is rotated away the way kubelet does it: renamed to a name no symlink points to
+			// (the inode stays alive for whoever holds it open); for the watched set this is a removal
+			w.rotated++
+			err = os.Rename(w.path(o.name), fmt.Sprintf("%s.rotated%d", w.path(o.name), w.rotated))
+		} else {
+			err = os.Remove(w.path(o.name))
+		}
+		if err != nil {
+			w.bad = err.Error()
+			return nil
+		}
+		f.removed = true
+		f.pend, f.pendL = nil, nil
+		delete(w.byName, o.name)
+		return nil
+	case 4, 5:
+		t := w.byName[o.name2]
+		if t == nil {
+			w.bad = "symlink: no such target"
+			return nil
+		}
+		if o.op == 5 {
+			other, ok := w.links[o.name3]
+			if !ok {
+				w.bad = "symlink: no such other link"
+				return nil
+			}
+			base, ok := collidingBase(other.inode, symContribution(other.path, other.inode), t.inode)
+			if !ok {
+				w.bad = "symlink: no colliding name"
+				return nil
+			}
+			if w.linkPath == nil {
+				w.linkPath = map[int]string{}
+			}
+			w.linkPath[o.name] = filepath.Join(w.dir, "watch", base)
+		}
+		lp := w.path(o.name)
+		_ = os.Remove(lp)
+		if err := os.Symlink(w.path(o.name2), lp); err != nil {
+			w.bad = err.Error()
+			return nil
+		}
+		if w.links == nil {
+			w.links = map[int]linkInfo{}
+		}
+		w.links[o.name] = linkInfo{path: lp, inode: t.inode}
 		return nil
 	case 0, 2:
 		var buf []byte
@@ -409,6 +553,9 @@ func runPhase(w *world, cfgS hx.Sx, run int, ph phase, snapPrev snapshot, trunca
 	// what this run has to deliver, as far as the parent can tell (only used to decide how long to wait)
 	expected := map[int]bool{}
 	for _, f := range w.files {
+		if f.removed {
+			continue
+		}
 		var saved map[string]int64
 		if snapPrev != nil {
 			saved = snapPrev[f.inode]
@@ -631,6 +778,7 @@ func scratch() string {
 	d := filepath.Join(scratchRoot, strconv.Itoa(scratchN))
 	scratchMu.Unlock()
 	_ = os.MkdirAll(filepath.Join(d, "watch"), 0o755)
+	_ = os.MkdirAll(filepath.Join(d, "targets"), 0o755)
 	return d
 }
 
@@ -711,6 +859,10 @@ func main() {
 		fmt.Printf("truncate-inflight-blank\t0\t%s\n", hx.String(witnessTruncInflightBlank()))
 		fmt.Printf("truncate-inflight-single\t0\t%s\n", hx.String(witnessTruncInflightSingle()))
 		fmt.Printf("antispam-empty-stream\t0\t%s\n", hx.String(witnessAntispamEmptyStream()))
+		fmt.Printf("live-rotate\t2\t%s\n", hx.String(witnessLiveRotateStaleJob()))
+		fmt.Printf("symlink-sourceid-collision\t0\t%s\n", hx.String(witnessSymlinkCollision()))
+		fmt.Printf("k8s-meta-short-name\t0\t%s\n", hx.String(witnessK8sMetaShortName()))
+		fmt.Printf("remove-after-uncommitted\t0\t%s\n", hx.String(witnessRemoveAfterUncommitted()))
 		return
 	}
 	logger.Level.SetLevel(zapcore.FatalLevel)
